@@ -29,6 +29,10 @@ def c01(repo, rep):
     M.full_data_handoff(repo, rep)       # the trajectory handed back with return_full_data is the one that was simulated
     with rep.keep("HIST"):
         M.transform_history_rule(repo, rep)
+    with rep.keep("R10a", "R10b"):
+        M.r10(repo, rep)                     # the chain starts from the requested initial condition
+    with rep.keep("TRUTHY"):
+        X.truthy_rule(repo, rep, ["simulation"])
 
 
 def c02(repo, rep):
@@ -46,6 +50,10 @@ def c02(repo, rep):
     S.r17(repo, rep, funcs=T.SIS_EVENT + ["Gillespie_SIS"])
     with rep.keep("HIST"):
         M.transform_history_rule(repo, rep)   # per-node trajectories are rebuilt from the recorded infection / recovery times
+    with rep.keep("R10a", "R10b"):
+        M.r10(repo, rep)                      # the chain starts from the requested initial infected set
+    with rep.keep("TRUTHY"):
+        X.truthy_rule(repo, rep, ["simulation"])
 
 
 def c03(repo, rep):
@@ -75,6 +83,9 @@ def c04(repo, rep):
     M.full_data_handoff(repo, rep)
     with rep.keep("R11s"):
         G.simple_contagion_rule(repo, rep)   # "a spec edge for the generic simulators": the move applied is the chosen transition's
+    with rep.keep("R11"):
+        G.r11_sir_sis(repo, rep, "Gillespie_SIR")   # "one legal move": a stale or phantom I-S link fires a transmission onto a
+        G.r11_sir_sis(repo, rep, "Gillespie_SIS")   # node that is not susceptible (also through a self-loop)
 
 
 def c05(repo, rep):
@@ -209,6 +220,10 @@ def c13(repo, rep):
         R.r9_event_driven(repo, rep, "fast_nonMarkov_SIS")
     with rep.keep("HIST"):
         M.transform_history_rule(repo, rep)   # "produces exactly the history": the per-node history is rebuilt by this helper
+    with rep.keep("R10a", "R10b"):
+        M.r10(repo, rep)
+    with rep.keep("TRUTHY"):
+        X.truthy_rule(repo, rep, ["simulation"])
 
 
 def c14(repo, rep):
